@@ -166,16 +166,16 @@ type schedAct struct {
 }
 
 type c16Spec struct {
-	Version    int
-	Peer       string // "lib" (library server) | "raw" (raw TCP peer)
-	Step       int    // the fault is injected after this many script steps
-	K          int    // requests sent
-	Answered   int    // of which answered before the fault
-	MultiPage  bool   // request 0 has received one non-final page (DSE versions)
-	Receivers  int    // goroutines blocked in Receive / ReceiveEvent at fault time
-	Fault      string // "client-close" | "server-conn-close" | "server-close" | "ctx-cancel" | "peer-close" | "double-close"
-	Stress     bool   // a goroutine keeps calling Send while the fault happens
-	Schedule   map[string][]schedAct
+	Version   int
+	Peer      string // "lib" (library server) | "raw" (raw TCP peer)
+	Step      int    // the fault is injected after this many script steps
+	K         int    // requests sent
+	Answered  int    // of which answered before the fault
+	MultiPage bool   // request 0 has received one non-final page (DSE versions)
+	Receivers int    // goroutines blocked in Receive / ReceiveEvent at fault time
+	Fault     string // "client-close" | "server-conn-close" | "server-close" | "ctx-cancel" | "peer-close" | "double-close"
+	Stress    bool   // a goroutine keeps calling Send while the fault happens
+	Schedule  map[string][]schedAct
 }
 
 func clientGoroutines() (int, string) {
